@@ -638,6 +638,7 @@ func checkC09(c *Ctx) {
 			}
 		}
 		var writes []ssa.Instruction
+		wholeSlice := map[ssa.Instruction]bool{} // writes of s[j] for every j, the event holding &s[i] for every i
 		for _, b := range f.Blocks {
 			for _, in := range b.Instrs {
 				if c.isStoreWrite(d, in) {
@@ -660,6 +661,18 @@ func checkC09(c *Ctx) {
 				}
 				if ld, ok := v.(*ssa.UnOp); ok && ld.Op == token.MUL && (elems[ld.X] || elems[deepStrip(ld.X)]) {
 					match = true
+				}
+				// the event was filled with &s[i] for every i in one loop, and s[j] is written for every j in another:
+				// the same elements of the same slice
+				if ld, ok := v.(*ssa.UnOp); ok && ld.Op == token.MUL {
+					if ia2, ok := ld.X.(*ssa.IndexAddr); ok && rangesWholeSlice(ia2) {
+						for e := range elems {
+							if ia1, ok := e.(*ssa.IndexAddr); ok && core.Strip(ia1.X) == core.Strip(ia2.X) && rangesWholeSlice(ia1) {
+								match = true
+								wholeSlice[w] = true
+							}
+						}
+					}
 				}
 			}
 			if !match {
@@ -703,6 +716,9 @@ func checkC09(c *Ctx) {
 							}
 						}
 					}
+				}
+				if !same && wholeSlice[w] && everyIteration(w) {
+					same = true // two loops over the whole of one slice: every element written is an element of the event
 				}
 				if !same {
 					bad = "entries are written to the store in a loop but not appended to the event in the same iteration: some touched entries are missing from the broadcast"
@@ -762,25 +778,43 @@ func checkC09(c *Ctx) {
 	seen := map[string]bool{}
 	for _, m := range d.mutators {
 		for _, q := range c.callsToDeep(m.fn, 3, d.queueBroadcast) {
-			t := boxedType(q.Arg(0))
-			n, ok := t.(*types.Named)
-			if !ok || seen[n.Obj().Name()] {
+			// the concrete types queued: boxed at the call, or inside the constructor that returns the broadcast
+			// (update, err := encodeBroadcast(event); QueueBroadcast(update))
+			var concrete []types.Type
+			if t := boxedType(q.Arg(0)); t != nil && !types.IsInterface(t) {
+				concrete = append(concrete, t)
+			} else {
+				depReaches(q.Arg(0), func(x ssa.Value) bool {
+					if mi, isMI := x.(*ssa.MakeInterface); isMI && !types.IsInterface(mi.X.Type()) {
+						concrete = append(concrete, mi.X.Type())
+					}
+					return false
+				})
+			}
+			if len(concrete) == 0 {
+				ru5.Undecided("broadcast queued at "+c.whereI(q.Instr), c.whereI(q.Instr), "the concrete type of the queued broadcast cannot be established")
 				continue
 			}
-			seen[n.Obj().Name()] = true
-			key := "Invalidates of " + n.Obj().Name()
-			inv := c.P.Func("wasp/distributed", n.Obj().Name()+".Invalidates")
-			if inv == nil {
-				ru5.Undecided(key, "-", "method not found")
-				continue
-			}
-			bad := ""
-			for _, rv := range returnValues(inv) {
-				if k, ok := rv.(*ssa.Const); !ok || k.Value == nil || k.Value.String() != "false" {
-					bad = "Invalidates can return true: a later change would evict an earlier, different change from the transmit queue"
+			for _, t := range concrete {
+				n, ok := t.(*types.Named)
+				if !ok || seen[n.Obj().Name()] {
+					continue
 				}
+				seen[n.Obj().Name()] = true
+				key := "Invalidates of " + n.Obj().Name()
+				inv := c.P.Func("wasp/distributed", n.Obj().Name()+".Invalidates")
+				if inv == nil {
+					ru5.Undecided(key, "-", "method not found")
+					continue
+				}
+				bad := ""
+				for _, rv := range returnValues(inv) {
+					if k, ok := rv.(*ssa.Const); !ok || k.Value == nil || k.Value.String() != "false" {
+						bad = "Invalidates can return true: a later change would evict an earlier, different change from the transmit queue"
+					}
+				}
+				ru5.Check(bad == "", key, c.where(inv, inv), "constant false", bad)
 			}
-			ru5.Check(bad == "", key, c.where(inv, inv), "constant false", bad)
 		}
 	}
 }
